@@ -803,9 +803,9 @@ func (h *harness) probes(c *config, ci int) []probe {
 			if quick || t.kind == "unknown" {
 				// a seeded sample of the single-factor variants
 				rng.Shuffle(len(singles), func(i, j int) { singles[i], singles[j] = singles[j], singles[i] })
-				k := 9
+				k := 8
 				if t.kind == "unknown" {
-					k = 4
+					k = 3
 				}
 				if len(singles) > k {
 					singles = singles[:k]
@@ -877,7 +877,7 @@ func (h *harness) configs() []*config {
 	}
 	add(nil, true, true, "", "", false)
 	rng := r.Rand("configs")
-	nRand := r.Pick(3, 46)
+	nRand := r.Pick(3, 28)
 	for i := 0; i < nRand; i++ {
 		var sets []string
 		for _, s := range all {
@@ -1091,16 +1091,20 @@ func main() {
 	r.Extra("routes_unknown_to_documentation", undoc)
 	r.Extra("documented_api_sets", allSets)
 
-	r.Floor("configurations", int64(r.Pick(15, 58)))
+	r.Floor("configurations", int64(r.Pick(15, 40)))
 	r.Floor("documented_route_methods_reaching_handler", int64(total))
 	r.Floor("documented_route_methods_answering_2xx", int64(total-8))
-	r.Floor("expect.handler", 3000)
+	r.Floor("expect.handler", 2000)
 	r.Floor("expect.refusal", 30000)
 	for _, k := range []string{"AUTH", "CT", "HOST", "ORIGIN", "CSRF", "DISABLED", "METHOD"} {
-		r.Floor("class."+k, 100)
-		r.Floor("failed."+k, 300)
+		min := int64(300)
+		if k == "CT" {
+			min = 60 // only POST to the nine /api/v2 paths can fail this condition
+		}
+		r.Floor("class."+k, min/3)
+		r.Floor("failed."+k, min)
 	}
-	r.Floor("class.HANDLER", 2000)
+	r.Floor("class.HANDLER", 1000)
 	if !r.Quick() {
 		r.Floor("expired_token_probes", 5)
 	}
